@@ -32,3 +32,39 @@ def _(self, shmid, callback):
     ensures(forall(int, lambda j: implies(n0 <= j and j < events_len() and ev_name(event(j)) == "unlink", j == n0 + 4 and same(event(n0 + 2), ev("write", shm.buf[:])))),
             tag="unlinked-only-after-the-write", top=True)
     modifies("events")
+
+
+external_returns(read="bytes")
+external_raises(read=["OSError"], unregister=["KeyError"])
+
+
+@contract("cascade.shm.disk:Disk._page_in")
+def _(self, shmid, size, callback):
+    observes(shm="SharedMemory")
+    n0 = old(events_len())
+    last = event(events_len() - 1)
+    option(exceptions_top=True)
+    ensures(events_len() > n0 and ev_name(last) == "callback" and (same(last, ev("callback", True)) or same(last, ev("callback", False)))
+            and forall(int, lambda j: implies(n0 <= j and j < events_len() - 1, ev_name(event(j)) != "callback")), tag="reports-back-once-last", top=True)
+    is_write = lambda e: ev_name(event(e)) == "setslice"
+    lo = lambda e: typed(ev_arg(event(e), 1), int)
+    hi = lambda e: typed(ev_arg(event(e), 2), int)
+    # "however often the dataset was paged to disk and back": success is reported only after a NEW segment of the dataset's size was created
+    # under its own name, its spill file <root>/<shmid> was opened for reading, and the chunks read from it were copied into the segment's
+    # buffer back to back from offset 0 - no gap, no overlap, each chunk at full length
+    ensures(implies(same(last, ev("callback", True)),
+                    same(event(n0), ev("SharedMemory", shmid)) and same(event(n0 + 1), ev("open", self.root.name + "/" + shmid, "rb"))
+                    and forall(int, lambda e: implies(n0 + 2 <= e and e < events_len() and is_write(e),
+                                                      same(ev_arg(event(e), 0), shm.buf) and hi(e) == lo(e) + len(typed(ev_arg(event(e), 3), bytes))
+                                                      and (lo(e) == 0 if e == n0 + 3 else (is_write(e - 2) and lo(e) == hi(e - 2)))))),
+            tag="success-only-after-the-file-was-copied-contiguously", top=True)
+    invariant(0, events_len() >= n0 + 2 and same(event(n0), ev("SharedMemory", shmid)) and same(event(n0 + 1), ev("open", self.root.name + "/" + shmid, "rb"))
+              and chunk_size == 4096 and i >= 0, tag="inv-prefix")
+    invariant(0, forall(int, lambda j: implies(n0 <= j and j < events_len(), ev_name(event(j)) != "callback")), tag="inv-no-callback-yet")
+    invariant(0, (events_len() - n0) % 2 == 0, tag="inv-even")
+    invariant(0, (i == 0 if events_len() == n0 + 2 else (events_len() >= n0 + 4 and is_write(events_len() - 1) and hi(events_len() - 1) == i)), tag="inv-last-write-ends-at-i")
+    invariant(0, forall(int, lambda e: implies(n0 + 2 <= e and e < events_len(), is_write(e) == ((e - n0) % 2 == 1))), tag="inv-alternation")
+    invariant(0, forall(int, lambda e: implies(n0 + 2 <= e and e < events_len() and is_write(e),
+                                               same(ev_arg(event(e), 0), shm.buf) and hi(e) == lo(e) + len(typed(ev_arg(event(e), 3), bytes))
+                                               and (lo(e) == 0 if e == n0 + 3 else (is_write(e - 2) and lo(e) == hi(e - 2))))), tag="inv-contiguous")
+    modifies("events")
